@@ -11,6 +11,8 @@ CONSTANTS
   DirectCalls = TRUE
   MaxMsgLen = 1
   AsyncApply = FALSE
+  MaxPerRequest = 99
+  RecursiveRLock = FALSE
 INVARIANTS NotW1
 
 CHECK_DEADLOCK FALSE
